@@ -965,14 +965,14 @@ class TrustRegion:
             self.models.cub_val[best_index, :],
             self.models.ceq_val[best_index, :],
         )
-        tol = (
-            10.0
-            * EPS
-            * max(self.models.n, self.models.npt)
-            * max(abs(m_best), 1.0)
-        )
         for k in range(self.models.npt):
             if k != self.best_index:
+                tol = (
+                    10.0
+                    * EPS
+                    * max(self.models.n, self.models.npt)
+                    * max(abs(m_best), 1.0)
+                )
                 x_val = self.models.interpolation.point(k)
                 m_val = self.merit(
                     x_val,
